@@ -46,6 +46,8 @@ def instances(tier):
     for s in seqs:
         fam = "sympl_euler" if "KV" in s else "euler"
         out.append(dict(id="seq-%s-%s" % ("-".join(s) or "empty", fam), ops=list(s), family=fam, N=2, budget=b))
+    for sq in (("I",), ("I", "R"), ("IT", "R"), ("F", "R")):
+        out.append(dict(id="seq-%s-backward_euler" % "-".join(sq), ops=list(sq), family="backward_euler", N=2, budget=dict(b, wall_s=70)))
     out.append(dict(id="split-euler", ops=["SPLIT"], family="euler", N=3, budget=b))
     out.append(dict(id="split-sympl_euler", ops=["SPLIT"], family="sympl_euler", N=3, budget=b))
     out.append(dict(id="split-rk4", ops=["SPLIT"], family="rk4", N=2, budget=b))
@@ -72,6 +74,17 @@ def _same_snapshot(c, s1, s2):
 
 
 def scenario(c, inst):
+    if spans.FAMILIES[inst["family"]][2] == "implicit":
+        # stateful integrators: the stage solver is a deterministic function of the stage equations and of its initial guess (congruent
+        # contract stub), so that anything an integrator object carries over a reset() shows up as a different trajectory
+        import desolver.utilities.optimizer as opt
+        from .common import verdict_root_stub
+        with patched(opt, "nonlinear_roots", verdict_root_stub(c, congruent=True)):
+            return _scenario(c, inst)
+    return _scenario(c, inst)
+
+
+def _scenario(c, inst):
     import desolver as de
     import desolver.differential_system as ds
     if c.symbolic:
@@ -93,6 +106,10 @@ def scenario(c, inst):
         def rhs(t, y, k=None):
             return base(t, y)
         rhs.base = base
+        if kind == "implicit":
+            def jac(t, y, k=None):
+                return c.array(c.uf("fjac", [t] + list(flat(c, y)), n_state * n_state)).reshape(shape + shape)
+            rhs.jac = jac
         return rhs
 
     def construct(rhs, rtol=None, atol=None):
